@@ -48,7 +48,8 @@ def area_records(addr, data, policy):
 
 
 def write(areas, policy=16, order=None, eol="\n", addressing="linear", redundant_zone=False,
-          lower=False, reverse_records=False, start_record=False, implicit_zone0=False):
+          lower=False, reverse_records=False, start_record=False, implicit_zone0=False,
+          blank_lines=False, no_final_eol=False):
     """Returns the text of an Intel-HEX file.
     addressing: "linear" (type 04 records) or "segment" (type 02 records, 20-bit addresses).
     redundant_zone: emit the upper-address record before every area even when unchanged.
@@ -83,7 +84,9 @@ def write(areas, policy=16, order=None, eol="\n", addressing="linear", redundant
     if start_record:
         lines.append(record(0x05, 0, (areas[0][0]).to_bytes(4, "big")))
     lines.append(record(0x01, 0))
-    text = eol.join(lines) + eol
+    if blank_lines:
+        lines = [x for ln in lines for x in (ln, "")]
+    text = eol.join(lines) + ("" if no_final_eol else eol)
     return text.lower() if lower else text
 
 
